@@ -361,6 +361,7 @@ func suiteSched(o *suiteOut, r *rng, tier string, n int) {
 	for hi, parts := range [][]string{
 		{"%%A: 1\n1", "%%B: 2\n2"}, {"%!PS\n%%Title: t\n/a 1 def", "%%Pages: 3\n%%+ more\na", "%%EOF\n"}, {"1 2", "%%X: y\n", "add"},
 		{"%%First: a\n{ 1", "%%Inside: b\n2 add } exec", "%%Last: c\n"},
+		{"%%Title: x\n1 2 add\n", "foo\n"}, {"%%A: 1\n1\n", "%%B: 2\n(a) 1 add\n"},
 	} {
 		whole := strings.Join(parts, "\n")
 		one := runsLine(o, 200000, false, []string{whole})
@@ -485,7 +486,7 @@ func suiteFaults(o *suiteOut, r *rng, tier string, n int) {
 			}
 			isErr := got == "error" || (in.kind == "ps" && !strings.HasPrefix(got, "ok")) || (in.kind == "pfb" && !strings.HasSuffix(got, "|<nil>"))
 			selfEnding := in.kind == "ps" && (bytes.Contains(in.data, []byte("stop")) || bytes.Contains(in.data, []byte("closefile")))
-			if fr.issued && !isErr && k < len(in.data) && !selfEnding {
+			if fr.issued && !isErr && !selfEnding {
 				// the failing Read was issued and its error swallowed (a run ended by `stop`/closefile never issues it)
 				o.fail("C13", "a read fault at any offset surfaces as an error", line+" ("+in.desc+")", "error", got[:min(200, len(got))])
 			}
@@ -573,6 +574,8 @@ func safeErr(f func() error) (err error) {
 func detOutputs(seed uint64, count int) []string {
 	r := newRng(seed)
 	var out []string
+	// the very first look-ups of a process (lazily loaded tables) answer like every later one
+	out = append(out, fmt.Sprintf("names-first:%v %v %v %v", names.ToUnicode("dalethatafpatah", false), names.ToUnicode("a7_a8", true), names.FromUnicode(0x05D3), names.ToUnicode("Aacute", false)))
 	for i := 0; i < count; i++ {
 		f := randFont(newRng(r.next()), false)
 		for _, g := range f.Glyphs {
@@ -718,6 +721,7 @@ var hostilePrograms = []string{
 	"/CIDInit 5 /ProcSet defineresource pop",
 	"/Font 5 /ProcSet defineresource pop /CMap << >> /Category defineresource",
 	"currentfile eexec zzzz",
+	"\n\n\n{ 1 pop } loop", "\n{ } loop", "\n\n\n\n\n\n/f { f 1 pop } def { f } loop",
 }
 
 func probeResults() string {
@@ -745,10 +749,38 @@ func probeResults() string {
 	fmt.Fprintf(&sb, "%x\n", sha256.Sum256(md))
 	sb.WriteString(runInput("afm", bytes.NewReader(md)) + "\n")
 	fmt.Fprintf(&sb, "%v %v %v %v\n", names.ToUnicode("A_uni0042.alt", false), names.FromUnicode(0x1F600), names.IsValid("a.b"), names.ToUnicode("a100", true))
+	// the text of the shared budget error, from interpreter runs and from the readers
+	{
+		intp := postscript.NewInterpreter()
+		intp.MaxOps = 10
+		fmt.Fprintf(&sb, "%v|", intp.ExecuteString("\n\n{ 1 pop } loop"))
+		_, err := postscript.ReadCMap(strings.NewReader("{ 1 pop } loop"))
+		fmt.Fprintf(&sb, "%v|%v\n", err, postscript.ErrExecutionLimitExceeded)
+	}
+	// writer options are read, never written: a caller's value and the package default stay as they are
+	{
+		opt := &type1.WriterOptions{}
+		var b1, b2 bytes.Buffer
+		e1 := f.Write(&b1, opt)
+		e2 := f.Write(&b2, nil)
+		fmt.Fprintf(&sb, "%v %v %+v %x %x\n", e1, e2, *opt, sha256.Sum256(b1.Bytes()), sha256.Sum256(b2.Bytes()))
+	}
 	return sb.String()
 }
 
 func suiteIsolation(o *suiteOut, r *rng, tier string, n int) {
+	{
+		// values handed in by the caller are read, never written (they may be shared between goroutines)
+		f := randFont(newRng(5), false)
+		opt := &type1.WriterOptions{}
+		f.Write(io.Discard, opt)
+		f.Write(io.Discard, nil)
+		f.Write(io.Discard, opt)
+		if *opt != (type1.WriterOptions{}) {
+			o.fail("C18", "a caller's options value is not written to by Font.Write", "iso options", fmt.Sprintf("%+v", type1.WriterOptions{}), fmt.Sprintf("%+v", *opt))
+		}
+		o.emit("iso options", "skip", true)
+	}
 	before := probeResults()
 	progs := append([]string{}, hostilePrograms...)
 	extra := 200
@@ -803,6 +835,8 @@ func firstDiff(a, b string, first bool) string {
 // suiteRace is meant to run in the binary built with -race: goroutines mix all
 // entry points; results must equal the sequential ones (and the race detector
 // must stay silent: a report makes the process exit with status 66).
+var sharedZeroOptions = &type1.WriterOptions{}
+
 func suiteRace(o *suiteOut, r *rng, tier string, n int) {
 	workers, rounds := 8, 6
 	if tier == "thorough" {
@@ -823,6 +857,18 @@ func suiteRace(o *suiteOut, r *rng, tier string, n int) {
 				sb.WriteString(runInput("t1", bytes.NewReader(d)))
 			}
 			return sb.String()
+		}})
+		jobs = append(jobs, job{fmt.Sprintf("write-default-%d", i), func() string {
+			f := randFont(newRng(seed), false)
+			var b1, b2 bytes.Buffer
+			f.Write(&b1, nil)
+			f.Write(&b2, sharedZeroOptions)
+			return fmt.Sprintf("%x %x %+v", sha256.Sum256(b1.Bytes()), sha256.Sum256(b2.Bytes()), *sharedZeroOptions)
+		}})
+		jobs = append(jobs, job{fmt.Sprintf("limit-%d", i), func() string {
+			intp := postscript.NewInterpreter()
+			intp.MaxOps = 50 + i
+			return fmt.Sprint(intp.ExecuteString(strings.Repeat("\n", i)+"{ 1 pop } loop"), intp.NumOps)
 		}})
 		jobs = append(jobs, job{fmt.Sprintf("cmap-%d", i), func() string {
 			rr := newRng(seed)
